@@ -35,9 +35,10 @@ def stackWeights (cfg : Cfg α) (p : ProgX α) (path : List Nat) (d : Nat) (w : 
       | .error e => throw (selErr e)
       | .ok none => pure none
       | .ok (some sel) =>
-        match p.wgh, sel with
-        | .equally, none => throw Err.badPath
-        | wg, sel => (postSteps cfg path p.post (w, weights wg (sel.getD []))).map some
+        (weigherX p d sel).bind fun r =>
+        match r with
+        | none => pure none
+        | some ws0 => (postSteps cfg path p.post (w, ws0)).map some
     | _ => throw Err.badPath
   else pure none
 
